@@ -9,6 +9,9 @@ import time
 
 from harness import common, gen_core, tlc, tracecheck
 from harness import replay as rp
+
+# stationary blocks of unequal height (legal; armi only warns): the exchange branch that re-establishes block order
+gen_core.UNEVEN_PLATES = True
 from harness.armi_env import armi_ready
 
 MODDIR = os.path.join(common.SPEC, "core")
